@@ -120,8 +120,11 @@ def sensitivity(verif_seed, sel):
         try:
             if how[0] == 'patch':
                 p = subprocess.run(['git', 'apply', how[1]], cwd=d, capture_output=True, text=True)
-                if p.returncode:
-                    raise core.HarnessError(f'patch {how[1]} does not apply to a copy of the working tree: {p.stderr}')
+                if p.returncode:  # the tree moved on (a later fix touched the same lines): needs a rebase of the seeded patch
+                    print(f'sensitivity {name}: STALE - patch does not apply to the current working tree: {p.stderr.strip()[:200]}', flush=True)
+                    report[name] = {'stale': True}
+                    missed += 1
+                    continue
             else:
                 path = os.path.join(d, 'src', 'fst', how[1])
                 s = open(path).read()
